@@ -2,6 +2,7 @@ package sched
 
 import (
 	"context"
+	"encoding/json"
 	"fmt"
 	"os"
 	"os/exec"
@@ -10,9 +11,11 @@ import (
 	"sort"
 	"strings"
 	"testing"
+	"time"
 
 	"github.com/ory/keto/internal/expand"
 	"github.com/ory/keto/internal/relationtuple"
+	"github.com/ory/keto/internal/x"
 	"github.com/ory/keto/ketoapi"
 	"github.com/ory/keto/verif/ev"
 	"github.com/ory/keto/verif/refsem"
@@ -34,6 +37,12 @@ func treeStr(t *relationtuple.Tree) string {
 	return s
 }
 
+// c14Alone: the answers one request gives when it runs alone, over all schedules to the bound.
+type c14Alone struct {
+	Complete bool
+	Outcomes map[string]bool
+}
+
 type c14req struct {
 	name string
 	run  func(ctx context.Context) string
@@ -44,7 +53,56 @@ func TestC14(t *testing.T) {
 	run := ev.New("C14", "model_checking")
 	shard, nshards, child := ev.Shard()
 	if !child {
+		// pass 1: the outcome set of every request run ALONE (all worker processes share each exploration);
+		// pass 2: pairs, judged against the merged sets
+		dir := os.Getenv("VERIF_SCRATCH")
+		if dir == "" {
+			dir = os.TempDir()
+		}
+		os.Setenv("VERIF_C14_PHASE", "alone")
+		os.Setenv("VERIF_C14_ALONE", filepath.Join(dir, "c14-alone"))
+		covA := run.RunShards("TestC14", ev.Workers())
+		merged := map[string]*c14Alone{}
+		for i := 0; i < ev.Workers(); i++ {
+			var part map[string]*c14Alone
+			b, err := os.ReadFile(fmt.Sprintf("%s-%d.json", os.Getenv("VERIF_C14_ALONE"), i))
+			if err != nil || json.Unmarshal(b, &part) != nil {
+				fmt.Printf("INFRA-ERROR C14: alone-phase result of shard %d unreadable: %v\n", i, err)
+				os.Exit(2)
+			}
+			os.Remove(fmt.Sprintf("%s-%d.json", os.Getenv("VERIF_C14_ALONE"), i))
+			for k, v := range part {
+				m := merged[k]
+				if m == nil {
+					m = &c14Alone{Complete: true, Outcomes: map[string]bool{}}
+					merged[k] = m
+				}
+				m.Complete = m.Complete && v.Complete
+				for o := range v.Outcomes {
+					m.Outcomes[o] = true
+				}
+			}
+		}
+		b, _ := json.Marshal(merged)
+		if err := os.WriteFile(os.Getenv("VERIF_C14_ALONE")+".json", b, 0o644); err != nil {
+			fmt.Printf("INFRA-ERROR C14: %v\n", err)
+			os.Exit(2)
+		}
+		os.Setenv("VERIF_C14_PHASE", "pairs")
 		cov := run.RunShards("TestC14", ev.Workers())
+		os.Remove(os.Getenv("VERIF_C14_ALONE") + ".json")
+		cov["alone_executions"] = covA["alone_executions"]
+		cov["alone_outcome_sets_complete"] = covA["exhaustive"]
+		if f, ok := covA["replay_divergences"].(float64); ok {
+			if g, ok := cov["replay_divergences"].(float64); ok {
+				cov["replay_divergences"] = f + g
+			}
+		}
+		if tv, ok := cov["traces_validated_against_impl"].(float64); ok {
+			if av, ok := covA["alone_executions"].(float64); ok {
+				cov["traces_validated_against_impl"] = tv + av
+			}
+		}
 		racePass(run, cov)
 		run.Assume("schedule exploration: visible-operation granularity, sequentially consistent; storage calls of the in-memory store are scheduling points",
 			"a request's reference outcome set is what the same request produces ALONE over all schedules to the same bound (so schedule dependence of a single check, finding KF-C01-1, is not blamed on interference)",
@@ -52,7 +110,19 @@ func TestC14(t *testing.T) {
 		run.Finish(cov)
 		return
 	}
-	deadline := ev.Deadline(300, 1500)
+	phase := os.Getenv("VERIF_C14_PHASE")
+	deadline := ev.Deadline(250, 1100)
+	if phase == "alone" {
+		deadline = ev.Deadline(100, 600)
+	}
+	aloneOut := map[string]*c14Alone{}
+	aloneIn := map[string]*c14Alone{}
+	if phase == "pairs" {
+		b, err := os.ReadFile(os.Getenv("VERIF_C14_ALONE") + ".json")
+		if err != nil || json.Unmarshal(b, &aloneIn) != nil {
+			fatalInfra("C14: alone sets unreadable: %v", err)
+		}
+	}
 	bound := 1
 	if ev.Thorough() {
 		bound = 2
@@ -100,6 +170,11 @@ func TestC14(t *testing.T) {
 			chk(tid("o2", "a", "u")),
 			chk(tid("o1", "p", "u")),
 			chk(tid("g2", "a", "u")),
+			// the same tuple as the first request under a request max-depth that cuts it short: two requests that
+			// differ only in a per-request parameter must not be answered from one evaluation
+			{"check n:o1#a@u max-depth=2", func(ctx context.Context) string {
+				return memb(w.Eng.CheckRelationTuple(ctx, w.Internal(tid("o1", "a", "u")), 2))
+			}},
 			{"batch [o1#p@u, o2#p@u]", func(ctx context.Context) string {
 				res, err := w.Eng.BatchCheck(ctx, []*ketoapi.RelationTuple{api("o1"), api("o2")}, 0)
 				if err != nil {
@@ -144,35 +219,53 @@ func TestC14(t *testing.T) {
 		astBefore := relJSON(w.Cfg.Namespaces)
 		// outcome sets of every request run alone, all schedules to the same bound
 		alone := make([]map[string]bool, len(reqs))
-		for i, r := range reqs {
-			alone[i] = map[string]bool{}
-			out := make([]string, 1)
-			ex := &vsched.Explore{Bound: bound, Deadline: deadline}
-			ex.Run(func(vc vsched.Config) *vsched.Execution { return exec(vc, []c14req{r}, out) },
-				func(x *vsched.Execution) bool {
-					if x.Outcome == "diverged" {
-						cov.divergences++
+		aloneOK := make([]bool, len(reqs))
+		if phase == "alone" {
+			for _, r := range reqs {
+				r := r
+				res := &c14Alone{Complete: true, Outcomes: map[string]bool{}}
+				aloneOut[cfg.Name+"|"+r.name] = res
+				out := make([]string, 1)
+				ex := &vsched.Explore{Bound: bound, Deadline: deadline, Shard: shard, NShards: nshards}
+				ex.Run(func(vc vsched.Config) *vsched.Execution { return exec(vc, []c14req{r}, out) },
+					func(x *vsched.Execution) bool {
+						if x.Outcome == "diverged" {
+							cov.divergences++
+							return true
+						}
+						if x.Outcome != "ok" {
+							run.Violation("abnormal:"+x.Outcome, fmt.Sprintf("request %q alone: execution %s", r.name, x.Outcome), nil)
+							return true
+						}
+						res.Outcomes[out[0]] = true
 						return true
-					}
-					if x.Outcome != "ok" {
-						run.Violation("abnormal:"+x.Outcome, fmt.Sprintf("request %q alone: execution %s", r.name, x.Outcome), nil)
-						return true
-					}
-					alone[i][out[0]] = true
-					return true
-				})
-			cov.aloneExecs += ex.Execs
-			if !ex.Complete {
-				cov.complete = false
-			}
-			// a check on a plain relation (no rewrite involved, so none of the recorded findings apply)
-			// must give the reference answer even when other requests ran on this engine before it
-			if w, ok := want[r.name]; ok && ex.Complete && shard == 0 {
-				for got := range alone[i] {
-					if got != w {
-						run.Violation("wrong-answer-alone:"+strings.Fields(r.name)[0], fmt.Sprintf("request %q answers %q on its own (after other requests had been served by the same engine); the reference semantics say %q (config %s)", r.name, got, w, cfg.Name), map[string]any{"config": cfg.Name, "request": r.name, "tuples_in_row_order": tuplesStr(ts)})
+					})
+				cov.aloneExecs += ex.Execs
+				if !ex.Complete {
+					cov.complete = false
+					res.Complete = false
+				}
+				// a check on a plain relation (no rewrite involved, so none of the recorded findings apply)
+				// must give the reference answer under every schedule
+				if wa, ok := want[r.name]; ok {
+					for got := range res.Outcomes {
+						if got != wa {
+							run.Violation("wrong-answer-alone:"+strings.Fields(r.name)[0], fmt.Sprintf("request %q answers %q on its own; the reference semantics say %q (config %s)", r.name, got, wa, cfg.Name), map[string]any{"config": cfg.Name, "request": r.name, "tuples_in_row_order": tuplesStr(ts)})
+						}
 					}
 				}
+			}
+			continue
+		}
+		for i, r := range reqs {
+			e := aloneIn[cfg.Name+"|"+r.name]
+			if e == nil {
+				fatalInfra("C14: no alone set for %s | %s", cfg.Name, r.name)
+			}
+			alone[i], aloneOK[i] = e.Outcomes, e.Complete
+			if !e.Complete {
+				// the reference set is not known to the bound: an answer outside it proves nothing
+				cov.complete = false
 			}
 		}
 		// state kept for one request must not survive it: the base-schedule answer of every request,
@@ -194,20 +287,30 @@ func TestC14(t *testing.T) {
 		}(cfg.Name)
 		for i := 0; i < len(reqs); i++ {
 			for j := i; j < len(reqs); j++ {
-				n++
-				if n%nshards != shard {
-					continue
+				pair := []c14req{reqs[i], reqs[j]}
+				idx := []int{i, j}
+				out := make([]string, 2)
+				// load balancing as in C15: a pair whose base execution is long is explored by all worker
+				// processes together (level-1 subtrees of the schedule tree), short ones are dealt whole
+				probe := exec(vsched.Config{}, pair, out)
+				eshard, enshards := 0, 1
+				if probe.Steps > 150 {
+					eshard, enshards = shard, nshards
+				} else {
+					n++
+					if n%nshards != shard {
+						continue
+					}
 				}
 				if deadlinePassed(deadline) {
 					cov.complete = false
 					continue
 				}
-				pair := []c14req{reqs[i], reqs[j]}
-				idx := []int{i, j}
-				out := make([]string, 2)
-				cov.pairs++
+				if enshards == 1 || shard == 0 {
+					cov.pairs++
+				}
 				reported := false
-				ex := &vsched.Explore{Bound: bound, Count: true, Deadline: deadline}
+				ex := &vsched.Explore{Bound: bound, Count: true, Deadline: deadline, Shard: eshard, NShards: enshards}
 				ex.Run(func(vc vsched.Config) *vsched.Execution { return exec(vc, pair, out) },
 					func(x *vsched.Execution) bool {
 						if reported {
@@ -224,7 +327,7 @@ func TestC14(t *testing.T) {
 							return true
 						}
 						for k := 0; k < 2; k++ {
-							if !alone[idx[k]][out[k]] {
+							if aloneOK[idx[k]] && !alone[idx[k]][out[k]] {
 								reported = true
 								var al []string
 								for a := range alone[idx[k]] {
@@ -280,7 +383,7 @@ func TestC14(t *testing.T) {
 						if x.Outcome != "ok" || len(x.Leaked) > 0 {
 							reported = true
 							run.Violation("abnormal-with-cancel:"+x.Outcome, fmt.Sprintf("requests %q (cancelled) || %q: execution %s, leaked %v", pair[0].name, pair[1].name, x.Outcome, x.Leaked), rep)
-						} else if !alone[j][out[1]] {
+						} else if aloneOK[j] && !alone[j][out[1]] {
 							reported = true
 							run.Violation("interference-after-cancel:"+strings.Fields(pair[1].name)[0], fmt.Sprintf("request %q answered %q while %q was cancelled concurrently; alone it answers %v (config %s)", pair[1].name, out[1], pair[0].name, alone[j], cfg.Name), rep)
 						}
@@ -307,8 +410,9 @@ func TestC14(t *testing.T) {
 				var outB string
 				cov.cancelPairs++
 				reported := false
-				for _, bo := range []int{0, 1} {
-					ex := &vsched.Explore{Bound: bound, Deadline: deadline, BaseOrder: bo}
+				for _, ord := range [][2]int{{0, 0}, {1, 0}, {0, 1}} {
+					bo, so := ord[0], ord[1]
+					ex := &vsched.Explore{Bound: bound, Deadline: deadline, BaseOrder: bo, SelectOrder: so}
 					ex.Run(func(vc vsched.Config) *vsched.Execution {
 						w.Store.Reset(rows)
 						w.Store.Visible = true
@@ -331,7 +435,7 @@ func TestC14(t *testing.T) {
 						if reported {
 							return true
 						}
-						rep := map[string]any{"config": cfg.Name, "opl": refsem.RenderOPL(cfg.NS), "tuples_in_row_order": tuplesStr(ts), "requests": []string{a.name + " (cancelled at some point)", "then " + b.name}, "choices": x.Choices, "base_order": bo}
+						rep := map[string]any{"config": cfg.Name, "opl": refsem.RenderOPL(cfg.NS), "tuples_in_row_order": tuplesStr(ts), "requests": []string{a.name + " (cancelled at some point)", "then " + b.name}, "choices": x.Choices, "base_order": bo, "select_order": so}
 						if x.Outcome == "diverged" {
 							cov.divergences++
 							return true
@@ -339,7 +443,7 @@ func TestC14(t *testing.T) {
 						if x.Outcome != "ok" || len(x.Leaked) > 0 {
 							reported = true
 							run.Violation("abnormal-with-cancel:"+x.Outcome, fmt.Sprintf("request %q (cancelled) then %q: execution %s, leaked %v", a.name, b.name, x.Outcome, x.Leaked), rep)
-						} else if !alone[j][outB] {
+						} else if aloneOK[j] && !alone[j][outB] {
 							reported = true
 							run.Violation("interference-after-cancel:"+strings.Fields(b.name)[0], fmt.Sprintf("request %q answered %q right after %q was cancelled; alone it answers %v (config %s)", b.name, outB, a.name, alone[j], cfg.Name), rep)
 						}
@@ -358,6 +462,18 @@ func TestC14(t *testing.T) {
 			run.Violation("shared-config-mutated-by-requests", fmt.Sprintf("the namespace AST served to all requests changed while requests ran (config %s): before %s after %s", cfg.Name, astBefore, after), map[string]any{"config": cfg.Name})
 		}
 }
+	// pagination cursors: several paginating listers share one relationtuple.ManagerWrapper (page size 1 given
+	// at construction, with and without spare capacity in the option slice); each must receive exactly the rows
+	// matching its own query, in order, whatever the interleaving
+	if phase != "alone" && (shard == nshards-1 || nshards == 1) {
+		c14Wrapper(t, run, bound, deadline, &cov.execs, &cov.trans, &cov.complete, &cov.divergences)
+	}
+	if phase == "alone" {
+		b, _ := json.Marshal(aloneOut)
+		if err := os.WriteFile(fmt.Sprintf("%s-%d.json", os.Getenv("VERIF_C14_ALONE"), shard), b, 0o644); err != nil {
+			fatalInfra("C14: %v", err)
+		}
+	}
 	if cov.divergences > 0 && run.Violations() == 0 {
 		// nothing else explains the divergence: not decided
 		fatalInfra("C14: %d schedule replays diverged and no oracle fired", cov.divergences)
@@ -436,4 +552,104 @@ func racePass(run *ev.Run, cov map[string]any) {
 	cov["race_pass_requests"] = reqs
 	cov["race_reports"] = reports
 	cov["race_pass_exhaustive"] = false
+}
+
+func c14Wrapper(t *testing.T, run *ev.Run, bound int, deadline time.Time, execs, trans *int, complete *bool, divergences *int) {
+	cfg := mkCfgRefless(&Expr{Op: "leaf", Leaf: LIncA})
+	w := NewWorld(t, WorldOpt{Namespaces: cfg.NS, Depth: 5})
+	ts := []refsem.Tuple{tid("o1", "a", "u1"), tid("o2", "a", "v1"), tid("o1", "a", "u2"), tid("o2", "a", "v2"), tid("o1", "a", "u3"), tid("o2", "a", "v3")}
+	rows := w.Rows(ts)
+	d := &deps{RegistryDefault: w.Reg, ms: w.Store, names: w.Names}
+	lister := func(mw *relationtuple.ManagerWrapper, obj string) func(ctx context.Context) string {
+		ns := "n"
+		id := w.Names.ID(obj)
+		return func(ctx context.Context) string {
+			var got []string
+			token := ""
+			for page := 0; page < 10; page++ {
+				res, next, err := mw.GetRelationTuples(ctx, &relationtuple.RelationQuery{Namespace: &ns, Object: &id}, x.WithToken(token))
+				if err != nil {
+					return "err:" + err.Error()
+				}
+				for _, r := range res {
+					got = append(got, r.String())
+				}
+				if next == "" {
+					return strings.Join(got, " ")
+				}
+				token = next
+			}
+			return "no end: " + strings.Join(got, " ")
+		}
+	}
+	for _, spare := range []int{0, 2} {
+		mk := func() *relationtuple.ManagerWrapper {
+			opts := make([]x.PaginationOptionSetter, 1, 1+spare)
+			opts[0] = x.WithSize(1)
+			return relationtuple.NewManagerWrapper(nil, d, opts...)
+		}
+		var mw *relationtuple.ManagerWrapper
+		objs := []string{"o1", "o2", "o1"}
+		alone := map[string]string{}
+		for _, o := range []string{"o1", "o2"} {
+			w.Store.Reset(rows)
+			mw = mk()
+			var out string
+			xe := vsched.Run(vsched.Config{FastBase: true}, func() { out = lister(mw, o)(context.Background()) })
+			if xe.Outcome != "ok" {
+				run.Violation("abnormal:"+xe.Outcome, "paginating lister alone through ManagerWrapper: "+xe.Outcome, nil)
+				return
+			}
+			alone[o] = out
+		}
+		for _, k := range []int{2, 3} {
+			out := make([]string, k)
+			reported := false
+			ex := &vsched.Explore{Bound: bound, Deadline: deadline}
+			ex.Run(func(vc vsched.Config) *vsched.Execution {
+				w.Store.Reset(rows)
+				w.Store.Visible = true
+				mw = mk()
+				return vsched.Run(vc, func() {
+					var wg vsched.WaitGroup
+					for i := 0; i < k; i++ {
+						i := i
+						wg.Add(1)
+						vsched.Go("lister:"+objs[i], func() {
+							defer wg.Done()
+							out[i] = lister(mw, objs[i])(context.Background())
+						})
+					}
+					wg.Wait()
+				})
+			}, func(xe *vsched.Execution) bool {
+				if xe.Outcome == "diverged" {
+					*divergences++
+					return true
+				}
+				if reported {
+					return true
+				}
+				rep := map[string]any{"phase": "manager-wrapper", "listers": objs[:k], "spare_option_capacity": spare, "choices": xe.Choices}
+				if xe.Outcome != "ok" {
+					reported = true
+					run.Violation("abnormal:"+xe.Outcome, fmt.Sprintf("%d paginating listers through one ManagerWrapper: execution %s", k, xe.Outcome), rep)
+					return true
+				}
+				for i := 0; i < k; i++ {
+					if out[i] != alone[objs[i]] {
+						reported = true
+						run.Violation("pagination-cursor-shared:manager-wrapper", fmt.Sprintf("lister %d (object %s) paging through a shared ManagerWrapper received %q while %d listers ran concurrently; alone it receives %q", i, objs[i], out[i], k, alone[objs[i]]), rep)
+						break
+					}
+				}
+				return true
+			})
+			*execs += ex.Execs
+			*trans += ex.Transitions
+			if !ex.Complete {
+				*complete = false
+			}
+		}
+	}
 }
